@@ -7,7 +7,7 @@ contracts = "--no-contracts" not in sys.argv
 feats = [a.split("=")[1] for a in sys.argv if a.startswith("--features=")]
 scratch, lost = vf.prepare("dev", U.UNITS, want_contracts=contracts)
 print("scratch", scratch, "lost", lost)
-cmd = ["cargo", "kani"] + vf.KANI_Z + ["--only-codegen"]
+cmd = ["cargo", "kani"] + vf.KANI_Z + ["--only-codegen", "--exact", "--harness", "verif_kani::gen::canary_must_fail_n2"]
 if feats: cmd += ["--features", ",".join(feats)]
 p = subprocess.run(cmd, cwd=scratch, env=vf.ENV, stdout=subprocess.PIPE, stderr=subprocess.STDOUT, text=True)
 out = p.stdout
